@@ -68,13 +68,17 @@ let () =
   let cases = read_lines Sys.argv.(1) and impl = read_lines Sys.argv.(2) in
   List.iter2 (fun case impl_line ->
     try
-      match split_ws case with
+      (* evt <secs> <nanos> <level> ...: judged like ev (the time is read back from the line) *)
+      let ctoks = (match split_ws case with "evt" :: _ :: _ :: rest -> "ev" :: rest | t -> t) in
+      match ctoks with
       | ("ev" | "file") :: lvl :: k :: toks ->
         (* file: the line as the file log writer wrote it.  Long lines (the full RFC 8259 oracle is quadratic in the
            extracted model) are compared with the model's line, which c17_jsonl_roundtrip proves valid *)
         let lvl = level_of_tok lvl and k = int_of_string k in
         (match split_ws impl_line with
          | "panic" :: _ -> Printf.printf "nopanic | oracle=fail@panic\n"
+         | t :: _ when String.length t > 18 && String.sub t 0 18 = "time_ns-member-is-" ->
+           Printf.printf "time-ns-ok | oracle=fail@%s\n" t
          | "start-event-has-no-line-of-its-own" :: _ ->
            Printf.printf "start-ok | oracle=fail@the-writers-start-event-shares-a-physical-line-with-a-leftover-cut-line\n"
          | f :: rest when String.length f > 0 && f.[0] = 'F' ->
